@@ -383,6 +383,12 @@ def plan(tier, seed):
     pl.finite = [("C08-D/dispatch-table", dispatch_table), ("C08-U/uniform-loops", lambda: uniform.check(LOOPS))]
     from vfkit import lean as _lean
     pl.finite.append(("A5/Lean re-check of the lifting lemmas for operand runs", _lean.lemma_check))
+    ntok = 4 if tier == "quick" else 6
+
+    def net():
+        from vfkit import bounded as _b
+        return _b.run_native("c08_visitors", {"max_tokens": ntok, "known": _b.known_for("C08", "C08-B")})
+    pl.bounded = [("C08-B/visit traces, dispatch with alternating visitor classes and default copies on whole trees (safety net)", net)]
     pl.functions = ["luqum.visitor.TreeVisitor._get_method", "luqum.visitor.TreeVisitor.visit",
                     "luqum.visitor.TreeVisitor.visit_iter", "luqum.visitor.TreeVisitor.child_context",
                     "luqum.visitor.TreeVisitor.generic_visit", "luqum.visitor.TreeTransformer._clone_item",
